@@ -213,7 +213,7 @@ def obs_tree(t):
     tips = sorted(t.get_tip_names())
     edges = {}
     for e in t.get_edge_vector(include_root=True):
-        edges[str(e.name)] = canon({k: v for k, v in e.params.items()})
+        edges[str(e.name)] = canon({k: v for k, v in e.params.items() if v is not None})
     o = dict(
         cls=type(t).__name__,
         newick=t.get_newick(with_distances=True, with_node_names=True),
@@ -316,7 +316,7 @@ def obs_lf(lf):
         nfp=int(lf.nfp),
         name=lf.name,
         model=lf.model.name,
-        tree=lf.tree.get_newick(with_distances=True),
+        tree=_try(lambda: obs_tree(lf.get_annotated_tree())),
         mprobs=canon(_try(lambda: lf.get_motif_probs().to_dict())),
         rules=rules,
         stats=_try(lambda: {t.title: canon(t.to_list()) for t in lf.get_statistics(with_motif_probs=False)}),
